@@ -338,6 +338,286 @@ def shape_axes(fn, arr):
 
 
 # ------------------------------------------------------------------------------------------------
+
+# ------------------------------------------------------------------------------------------------
+# normalisation of the source before the recognisers run: same-module straight-line helpers are inlined, temporaries of a
+# call that only name an argument are folded back, and locals are renamed BY ROLE (what they are computed from / used
+# for), so that renamed locals, extracted helpers and inlined temporaries leave the translator output unchanged
+# ------------------------------------------------------------------------------------------------
+import copy
+
+
+class _Rename(ast.NodeTransformer):
+    def __init__(self, m):
+        self.m = m
+
+    def visit_Name(self, n):
+        if n.id in self.m:
+            return ast.copy_location(ast.Name(id=self.m[n.id], ctx=n.ctx), n)
+        return n
+
+
+def rename_locals(fn, mapping):
+    """apply {old: new}; a different local already called `new` is moved out of the way first"""
+    mapping = {a: b for a, b in mapping.items() if a != b and a is not None}
+    if not mapping:
+        return fn
+    used = {n.id for n in ast.walk(fn) if isinstance(n, ast.Name)} | {a.arg for a in fn.args.args}
+    pre = {b: f'{b}__other' for b in mapping.values() if b in used and b not in mapping}
+    if any(a.arg in pre or a.arg in mapping for a in fn.args.args):
+        pre = {k: v for k, v in pre.items() if k not in {a.arg for a in fn.args.args}}
+    fn = copy.deepcopy(fn)
+    params = {a.arg for a in fn.args.args}
+    if pre:
+        for st in fn.body:
+            _Rename(pre).visit(st)
+    m2 = {a: b for a, b in mapping.items() if a not in params}
+    for st in fn.body:
+        _Rename(m2).visit(st)
+    return fn
+
+
+def _straight_line(fn):
+    """(assignments, return expr) of a helper made of simple assignments and one final return, else None"""
+    body = [st for st in fn.body if not (isinstance(st, ast.Expr) and isinstance(st.value, ast.Constant))]
+    if not body or not isinstance(body[-1], ast.Return) or body[-1].value is None:
+        return None
+    for st in body[:-1]:
+        if not (isinstance(st, ast.Assign) and len(st.targets) == 1 and isinstance(st.targets[0], ast.Name)):
+            return None
+    if fn.args.vararg or fn.args.kwarg or fn.args.kwonlyargs:
+        return None
+    return body[:-1], body[-1].value
+
+
+def inline_helpers(mod, fn, depth=0):
+    """`x = helper(args)` / `x op= helper(args)` / `return helper(args)` with a same-module straight-line helper -> the helper's
+    statements (locals prefixed, parameters bound to the arguments) followed by the use of its return expression"""
+    helpers = {n.name: n for n in mod.body if isinstance(n, ast.FunctionDef) and n.name != fn.name}
+    fn = copy.deepcopy(fn)
+    changed = False
+
+    def expand(stmts):
+        nonlocal changed
+        out = []
+        for st in stmts:
+            for fld in ('body', 'orelse', 'finalbody'):
+                if isinstance(getattr(st, fld, None), list) and getattr(st, fld) and isinstance(getattr(st, fld)[0], ast.stmt):
+                    setattr(st, fld, expand(getattr(st, fld)))
+            if isinstance(st, ast.Try):
+                for h in st.handlers:
+                    h.body = expand(h.body)
+            val = st.value if isinstance(st, (ast.Assign, ast.AugAssign, ast.Return)) else None
+            if isinstance(val, ast.Call) and isinstance(val.func, ast.Name) and val.func.id in helpers and not val.keywords:
+                h = helpers[val.func.id]
+                sl = _straight_line(h)
+                if sl is not None and len(val.args) == len(h.args.args):
+                    assigns, ret = sl
+                    pre = f'{h.name.lstrip("_")}__'
+                    loc = {t.targets[0].id: pre + t.targets[0].id for t in assigns}
+                    bind = []
+                    for prm, arg in zip(h.args.args, val.args):
+                        if isinstance(arg, ast.Name):
+                            loc[prm.arg] = arg.id
+                        else:
+                            loc[prm.arg] = pre + prm.arg
+                            bind.append(ast.Assign(targets=[ast.Name(id=pre + prm.arg, ctx=ast.Store())], value=arg, lineno=st.lineno))
+                    new = bind + [copy.deepcopy(a) for a in assigns]
+                    for a in new[len(bind):]:
+                        _Rename(loc).visit(a)
+                        a.lineno = st.lineno
+                    r = _Rename(loc).visit(copy.deepcopy(ret))
+                    st.value = r
+                    out.extend(ast.fix_missing_locations(x) for x in new)
+                    changed = True
+            out.append(st)
+        return out
+    fn.body = expand(fn.body)
+    if changed and depth < 3:
+        return inline_helpers(mod, fn, depth + 1)
+    return fn
+
+
+def _assigned_from(fn, pred):
+    """names assigned (single Name target) from a value satisfying pred, in source order"""
+    out = []
+    for n in ast.walk(fn):
+        if isinstance(n, ast.Assign) and len(n.targets) == 1 and isinstance(n.targets[0], ast.Name) and pred(n.value):
+            out.append((n.lineno, n.targets[0].id))
+    return [x for _, x in sorted(out)]
+
+
+def _first(lst):
+    return lst[0] if lst else None
+
+
+def _unp(e):
+    return ast.unparse(e).replace('truenp.', 'np.')
+
+
+def canon_read_zygo(fn):
+    m = {}
+    keys = {'wavelength': 'W', 'scale_factor': 'S', 'obliquity_factor': 'O', 'phase_res': 'res', 'cn_width': 'pw', 'cn_height': 'ph',
+            'header_size': 'header_len', 'ac_width': 'iw', 'ac_height': 'ih', 'ac_n_buckets': 'ib'}
+    metas = _assigned_from(fn, lambda v: isinstance(v, ast.Call) and _unp(v.func).endswith('read_zygo_metadata'))
+    meta = _first(metas) or 'meta'
+    m[meta] = 'meta'
+    for n in ast.walk(fn):
+        if isinstance(n, ast.Assign):
+            tg, vs = n.targets[0], n.value
+            pairs = list(zip(tg.elts, vs.elts)) if isinstance(tg, ast.Tuple) and isinstance(vs, ast.Tuple) and len(tg.elts) == len(vs.elts) \
+                else [(tg, vs)]
+            for t, v in pairs:
+                if isinstance(t, ast.Name) and isinstance(v, ast.Subscript) and _unp(v.value) == meta and isinstance(v.slice, ast.Constant) \
+                        and v.slice.value in keys and keys[v.slice.value] not in m.values():
+                    m[t.id] = keys[v.slice.value]
+    r = _first(_assigned_from(fn, lambda v: isinstance(v, ast.Subscript) and _unp(v.value) == 'ZYGO_PHASE_RES_FACTORS'))
+    if r:
+        m[r] = 'R'
+    c = _first(_assigned_from(fn, lambda v: isinstance(v, ast.Call) and isinstance(v.func, ast.Attribute) and v.func.attr == 'read'))
+    if c:
+        m[c] = 'contents'
+    for n in ast.walk(fn):
+        if isinstance(n, ast.Try):
+            for st in n.body:
+                if isinstance(st, ast.Assign) and isinstance(st.targets[0], ast.Name) and 'frombuffer' in _unp(st.value):
+                    m[st.targets[0].id] = 'phase_raw'
+    rets = [n.value for n in ast.walk(fn) if isinstance(n, ast.Return) and isinstance(n.value, ast.Dict)]
+    if rets:
+        for k, v in zip(rets[0].keys, rets[0].values):
+            if isinstance(k, ast.Constant) and k.value == 'phase' and isinstance(v, ast.Name):
+                m[v.id] = 'phase'
+    return rename_locals(fn, m)
+
+
+def canon_write_zygo(fn):
+    m = {}
+    ph = fn.args.args[1].arg if len(fn.args.args) > 1 else 'phase'
+    x = _first(_assigned_from(fn, lambda v: isinstance(v, ast.Call) and isinstance(v.func, ast.Attribute) and v.func.attr == 'astype'
+                              and v.args and _unp(v.args[0]) == 'np.int32'))
+    if x:
+        m[x] = 'im'
+    x = _first(_assigned_from(fn, lambda v: _unp(v) in (f'np.isnan({ph})', f'~np.isfinite({ph})', f'{ph} != {ph}')))
+    if x:
+        m[x] = 'mask'
+    x = _first(_assigned_from(fn, lambda v: isinstance(v, ast.Call) and _unp(v.func).endswith('create_string_buffer')))
+    if x:
+        m[x] = 'buf'
+    x = _first(_assigned_from(fn, lambda v: isinstance(v, ast.Call) and _unp(v.func) == '_zygo_metadata_helper'))
+    if x:
+        m[x] = 'defaults'
+    return rename_locals(fn, m)
+
+
+def canon_write_codev(fn):
+    arr = fn.args.args[0].arg
+    m = {}
+    x = _first(_assigned_from(fn, lambda v: _unp(v) in (f'np.isnan({arr})', f'~np.isfinite({arr})', f'{arr} != {arr}')))
+    if x:
+        m[x] = 'NDA_PIX'
+    for n in ast.walk(fn):
+        if isinstance(n, ast.Assign) and isinstance(n.targets[0], ast.Tuple) and _unp(n.value) == f'{arr}.shape' and len(n.targets[0].elts) == 2:
+            a, b = n.targets[0].elts
+            if isinstance(a, ast.Name) and isinstance(b, ast.Name):
+                m[a.id], m[b.id] = 'n', 'm'
+    hd = None
+    for n in ast.walk(fn):
+        if isinstance(n, ast.Assign) and len(n.targets) == 1 and isinstance(n.targets[0], ast.Name):
+            try:
+                tpl = fstring_template(n.value)
+            except Untranslatable:
+                continue
+            if 'GRD ' in tpl and 'SSZ' in tpl:
+                hd = n.targets[0].id
+                mm = re.search(r'SSZ \{(\w+)\}', tpl)
+                if mm:
+                    m[mm.group(1)] = 'scale'
+    if hd:
+        m[hd] = 'hdr'
+    for n in ast.walk(fn):
+        if isinstance(n, ast.Call) and isinstance(n.func, ast.Attribute) and n.func.attr == 'reshape' and n.args \
+                and isinstance(n.args[0], ast.Tuple) and len(n.args[0].elts) == 2 and isinstance(n.args[0].elts[0], ast.Name) \
+                and 'ravel' in _unp(n.func.value):
+            m[n.args[0].elts[0].id] = 'width'
+    fn = rename_locals(fn, m)
+    if arr != 'array':
+        fn = copy.deepcopy(fn)
+        for st in fn.body:
+            _Rename({arr: 'array'}).visit(st)
+    return fn
+
+
+def canon_read_codev(fn):
+    m = {}
+    params = _first(_assigned_from(fn, lambda v: isinstance(v, ast.Call) and isinstance(v.func, ast.Attribute) and v.func.attr == 'split'
+                                   and not v.args))
+    idx = None
+    loop = None
+    for st in fn.body:
+        if isinstance(st, ast.While) and params and re.search(rf"{params}\[(\w+)\]\.upper\(\) == '", _unp(st)):
+            loop = st
+            idx = re.search(rf"{params}\[(\w+)\]\.upper\(\) == '", _unp(st)).group(1)
+    if params:
+        m[params] = 'params'
+    if idx:
+        m[idx] = 'i'
+    if loop is not None and isinstance(loop.test, ast.Compare) and isinstance(loop.test.comparators[0], ast.Name):
+        m[loop.test.comparators[0].id] = 'l'
+    if loop is not None:
+        for st in loop.body:
+            if not isinstance(st, ast.If):
+                continue
+            kw = re.search(r"== '(\w+)'", _unp(st.test))
+            tg = [x.targets[0].id for x in st.body if isinstance(x, ast.Assign) and isinstance(x.targets[0], ast.Name)]
+            if kw and kw.group(1) in ('WVL', 'SSZ', 'NDA') and len(tg) == 1:
+                m[tg[0]] = kw.group(1).lower()
+            if kw and kw.group(1) == 'GRD' and len(tg) == 2:
+                # by the token position each takes, not by statement order
+                pos = {}
+                for x in st.body:
+                    if isinstance(x, ast.Assign) and isinstance(x.targets[0], ast.Name):
+                        mm = re.search(r'\+ (\d)\]', _unp(x.value))
+                        if mm:
+                            pos[int(mm.group(1))] = x.targets[0].id
+                if set(pos) == {1, 2}:
+                    m[pos[1]], m[pos[2]] = 'GRDTOK1', 'GRDTOK2'
+    a = _first(_assigned_from(fn, lambda v: isinstance(v, ast.Call) and _unp(v.func) in ('np.fromstring', 'np.loadtxt', 'np.array')
+                              and 'int' in _unp(v)))
+    if a:
+        m[a] = 'a'
+        for n in ast.walk(fn):
+            if isinstance(n, ast.Call) and _unp(n.func) == 'np.fromstring' and n.args and isinstance(n.args[0], ast.Name):
+                m[n.args[0].id] = 'main_data'
+        ndaname = next((k for k, v in m.items() if v == 'nda'), 'nda')
+        x = _first(_assigned_from(fn, lambda v: isinstance(v, ast.Compare) and _unp(v.left) == a and _unp(v.comparators[0]) == ndaname))
+        if x:
+            m[x] = 'mask'
+    fn = rename_locals(fn, m)
+    # the two GRD values keep the names the reshape uses them under: first token -> `m`, second -> `n`
+    return rename_locals(fn, {'GRDTOK1': 'm', 'GRDTOK2': 'n'})
+
+
+def canon_ifg_load(fn):
+    m = {}
+    x = _assigned_from(fn, lambda v: isinstance(v, ast.Call) and _unp(v.func) in ('read_zygo_dat', 'read_zygo_datx'))
+    for nm in x:
+        m[nm] = 'zydat'
+    fn = rename_locals(fn, m)
+    # fold temporaries that only name an argument of the constructor call back into the call
+    fn = copy.deepcopy(fn)
+    single = {}
+    for st in fn.body:
+        if isinstance(st, ast.Assign) and len(st.targets) == 1 and isinstance(st.targets[0], ast.Name) and _unp(st.value).startswith("zydat['"):
+            single[st.targets[0].id] = st.value
+    calls = [n for n in ast.walk(fn) if isinstance(n, ast.Call) and _unp(n.func) == 'Interferogram']
+    for c in calls:
+        c.args = [copy.deepcopy(single.get(a.id, a)) if isinstance(a, ast.Name) else a for a in c.args]
+        for k in c.keywords:
+            if isinstance(k.value, ast.Name) and k.value.id in single:
+                k.value = copy.deepcopy(single[k.value.id])
+    return fn
+
+
 class _Gen(Gen):
     def item(self, name, source, node_fn, build, fallback):
         if name in os.environ.get('C14_FORCE_FALLBACK', '').split(','):
@@ -351,6 +631,23 @@ def generate(repo):
     io, _ = load(repo, 'prysm/io.py')
     ifg, _ = load(repo, 'prysm/interferogram.py')
     consts = module_env(io)
+    _canon = {'read_zygo_dat': canon_read_zygo, 'write_zygo_dat': canon_write_zygo, 'write_codev_gridint': canon_write_codev,
+              'read_codev_gridint': canon_read_codev, 'Interferogram.from_zygo_dat': canon_ifg_load}
+    _memo = {}
+    import pyexpr2lean as _P
+    _raw_get_def = _P.get_def
+
+    def get_def(mod, dotted):      # noqa: F811  normalised view of the functions the recognisers look at
+        key = (id(mod), dotted)
+        if key not in _memo:
+            fn = _raw_get_def(mod, dotted)
+            if dotted in _canon:
+                try:
+                    fn = _canon[dotted](inline_helpers(mod, fn))
+                except (Untranslatable, KeyError, IndexError, AttributeError, ValueError, TypeError):
+                    fn = _raw_get_def(mod, dotted)
+            _memo[key] = fn
+        return _memo[key]
 
     # ---- header table
     def table():
@@ -878,7 +1175,7 @@ def generate(repo):
         if len(calls) != 1:
             raise Untranslatable('from_zygo_dat does not build one Interferogram')
         c = calls[0]
-        if ast.unparse(call_arg(c, 0, 'phase')) != 'phase' or ast.unparse(find_assign(ld, 'phase')) != "zydat['phase']":
+        if ast.unparse(call_arg(c, 0, 'phase')) != "zydat['phase']":      # (temporaries are folded into the call by canon_ifg_load)
             raise Untranslatable('phase is not passed through')
         if ast.unparse(call_arg(c, None, 'meta')) != "zydat['meta']" or ast.unparse(call_arg(c, None, 'wavelength')) != 'None':
             raise Untranslatable('meta / wavelength arguments changed')
